@@ -67,6 +67,8 @@ CatalogRows(tabs, withV) ==
 
 Reverse2(rows) == [k \in 1..Len(rows) |-> rows[Len(rows) + 1 - k]]
 
+\* images with stale unused entries also carry validation rows of a table "Gone" that does not exist
+Orphan(c) == c.validation /\ c.holes = "stale"
 \* the image: pool + cells of every table stream
 BuildImage(db, c) ==
   LET cat == CatalogRows(db.tabs, c.validation)
@@ -86,7 +88,9 @@ BuildImage(db, c) ==
                                       [pool |-> p, rows |-> <<>>], rows)
       a == appendRows(p0, SortByKey(TablesCols, cat.tables))
       b == appendRows(a.pool, SortByKey(ColumnsCols, cat.columns))
-      v == IF c.validation THEN appendRows(b.pool, SortByKey(ValidationCols, cat.validation)) ELSE [pool |-> b.pool, rows |-> <<>>]
+      \* other tools leave rows in _Validation that describe tables the database does not (or no longer) have
+      vrows == IF Orphan(c) THEN cat.validation \o ValidationRows(<<71, 111, 110, 101>>, <<ColK, ColV>>) ELSE cat.validation
+      v == IF c.validation THEN appendRows(b.pool, SortByKey(ValidationCols, vrows)) ELSE [pool |-> b.pool, rows |-> <<>>]
       names == SetToSeq(DOMAIN db.tabs)
       u == FoldLeft(LAMBDA acc, t : LET x == appendRows(acc.pool, sortV(db.tabs[t].cols, db.tabs[t].rows))
                                     IN [pool |-> x.pool, ts |-> TsSet(acc.ts, t, x.rows)],
@@ -103,7 +107,9 @@ BuildImage(db, c) ==
       po == IF c.over /\ Len(pd.pool) > 0 THEN [pd.pool EXCEPT ![Len(pd.pool)].rc = @ + 1] ELSE pd.pool
   IN [pool |-> po, ts |-> pd.ts]
 
-ImgSummary == [InitSummary EXCEPT !.author = StrV(<<233, 120>>), !.word_count = IntV(2), !.arch = StrV(<<120, 54, 52>>), !.languages = [l |-> <<1033>>]]
+ImgSummary == [InitSummary EXCEPT !.author = StrV(<<233, 120>>), !.word_count = IntV(2), !.arch = StrV(<<120, 54, 52>>), !.languages = [l |-> <<1033>>],
+                                   \* a package code, as every real installer has one
+                                   !.uuid = StrV(<<48, 49, 50, 51, 52, 53, 54, 55, 45, 56, 57, 97, 98, 45, 99, 100, 101, 102, 45, 48, 49, 50, 51, 45, 52, 53, 54, 55, 56, 57, 97, 98, 99, 100, 101, 102>>)]
 
 \* The thorough set: the full product of the choices that meet in the table and pool readers (reference width,
 \* unused entries, duplicate texts, over-counted counts, _Validation, row order) for each database; the code-page
